@@ -95,8 +95,8 @@ func inputVars(roots ...*Term) []*Term {
 		walk(r)
 	}
 	sort.Slice(out, func(i, j int) bool { return termLabel(out[i]) < termLabel(out[j]) })
-	if len(out) > 400 {
-		out = out[:400]
+	if len(out) > 4000 {
+		out = out[:4000]
 	}
 	return out
 }
@@ -210,6 +210,11 @@ func (c *Checker) batch(obs []Oblig) {
 	for _, o := range obs {
 		if o.Cond.IsTrue() || o.PC.IsFalse() {
 			c.add(ObResult{Name: o.Name, Kind: o.Kind, Result: "trivial"})
+			continue
+		}
+		if o.SplitT != nil {
+			oo := o
+			c.splitOb(oo)
 			continue
 		}
 		live = append(live, o)
@@ -517,4 +522,34 @@ func (c *Checker) batchReplay(w *World, known []KnownFinding) map[string]repResu
 	}
 	replayCPU(w, todo, out)
 	return out
+}
+
+// splitOb decides an obligation whole with a short timeout, else per value of its split expression
+func (c *Checker) splitOb(o Oblig) {
+	q := SMTQuery([]*Term{o.PC, Not(o.Cond)}, nil)
+	save := quickTimeout
+	r := solveWithTimeout(q, 4*time.Second)
+	_ = save
+	if r.Result == "unsat" {
+		c.add(ObResult{Name: o.Name, Kind: o.Kind, Result: "discharged", Backend: r.Backend, Seconds: r.Seconds, Tried: r.Tried, Size: len(q.Text)})
+		return
+	}
+	var wg sync.WaitGroup
+	for cv := o.SplitLo; cv <= o.SplitHi; cv++ {
+		cv := cv
+		wg.Add(1)
+		go func() {
+			defer wg.Done()
+			so := Oblig{Name: fmt.Sprintf("%s@split=%02X", o.Name, cv), Cond: o.Cond, PC: And(o.PC, Eq(o.SplitT, Const(o.SplitT.S.W, uint64(cv)))), Kind: o.Kind, Fn: o.Fn}
+			// one back end first (racing three parsers over a multi-megabyte query wastes the cores)
+			q := SMTQuery([]*Term{so.PC, Not(so.Cond)}, nil)
+			r := runSolver("z3-new", q, quickTimeout)
+			if r.Result == "unsat" {
+				c.add(ObResult{Name: so.Name, Kind: so.Kind, Result: "discharged", Backend: "z3-new", Seconds: r.Seconds, Size: len(q.Text)})
+				return
+			}
+			c.single(so)
+		}()
+	}
+	wg.Wait()
 }
